@@ -523,6 +523,12 @@ func defineFieldMap(ttype Named, fieldMap Fields) (FieldDefinitionMap, error) {
 		if field.Type.Error() != nil {
 			return resultFieldMap, field.Type.Error()
 		}
+		if err = invariantf(
+			IsOutputType(field.Type),
+			`%v.%v field type must be Output Type but got: %v.`, ttype, fieldName, field.Type,
+		); err != nil {
+			return resultFieldMap, err
+		}
 		if err = assertValidName(fieldName); err != nil {
 			return resultFieldMap, err
 		}
@@ -554,6 +560,12 @@ func defineFieldMap(ttype Named, fieldMap Fields) (FieldDefinitionMap, error) {
 			}
 			if err = invariantf(
 				arg.Type != nil,
+				`%v.%v(%v:) argument type must be Input Type but got: %v.`, ttype, fieldName, argName, arg.Type,
+			); err != nil {
+				return resultFieldMap, err
+			}
+			if err = invariantf(
+				IsInputType(arg.Type),
 				`%v.%v(%v:) argument type must be Input Type but got: %v.`, ttype, fieldName, argName, arg.Type,
 			); err != nil {
 				return resultFieldMap, err
@@ -1193,6 +1205,12 @@ func (gt *InputObject) defineFieldMap() InputObjectFieldMap {
 		}
 		if gt.err = invariantf(
 			fieldConfig.Type != nil,
+			`%v.%v field type must be Input Type but got: %v.`, gt, fieldName, fieldConfig.Type,
+		); gt.err != nil {
+			return resultFieldMap
+		}
+		if gt.err = invariantf(
+			IsInputType(fieldConfig.Type),
 			`%v.%v field type must be Input Type but got: %v.`, gt, fieldName, fieldConfig.Type,
 		); gt.err != nil {
 			return resultFieldMap
